@@ -91,6 +91,7 @@ class Types:
     join = staticmethod(join); coerce = staticmethod(coerce); tuple_type = staticmethod(tuple_type)
 
 MUTABLE = ('list', 'set', 'dict', 'ddict')
+NEGATED = {ast.Eq: ast.NotEq, ast.NotEq: ast.Eq, ast.In: ast.NotIn, ast.NotIn: ast.In, ast.Is: ast.IsNot, ast.IsNot: ast.Is}
 
 def lean_char(c):
     o = ord(c)
@@ -528,6 +529,13 @@ class Fn(Stmts):
 
     def expr_UnaryOp(self, e, env, B):
         if isinstance(e.op, ast.Not):
+            o = e.operand
+            # `not (a == b)` is `a != b` (likewise != / in / not in / is / is not): one spelling in the output
+            if isinstance(o, ast.Compare) and len(o.ops) == 1 and type(o.ops[0]) in NEGATED:
+                flipped = ast.copy_location(ast.Compare(left=o.left, ops=[NEGATED[type(o.ops[0])]()], comparators=o.comparators), o)
+                return self.expr(flipped, env, B)
+            if isinstance(o, ast.UnaryOp) and isinstance(o.op, ast.Not):
+                return self.cond(o.operand, env, B), BOOL
             return f'(!{self.cond(e.operand, env, B)})', BOOL
         if isinstance(e.op, ast.USub) and isinstance(e.operand, ast.Constant) and isinstance(e.operand.value, int):
             return f'(-{e.operand.value} : Int)', INT
